@@ -115,12 +115,21 @@ def check_batch(sh, heuristic, label, frame, triplets, origin, sample=False):
     return len(distinct) > 1
 
 
-def install_hook(cr, captured):
+def install_hook(cr, captured, sh=None):
     real = cr.mixed_rank_graph
+    sh_ref = [sh] if sh is not None else []
 
     def hooked(input_dataframe, args, cpu_pool, pbar):
         snap = input_dataframe.copy()
+        args_before = dict(vars(args)) if hasattr(args, '__dict__') else None
         out = real(input_dataframe, args, cpu_pool, pbar)
+        if sh_ref:
+            same = list(input_dataframe.columns) == list(snap.columns) and len(input_dataframe) == len(snap) and all(input_dataframe[c].tolist() == snap[c].tolist() for c in snap.columns)
+            sh_ref[0].check('scored-frame=input-rows', same, 'mixed_rank_graph-modified-the-frame-it-was-given', lambda: {'columns': list(input_dataframe.columns)[:10]})
+            if args_before is not None and '3mr' not in str(args_before.get('heuristic')):
+                after = dict(vars(args))
+                changed = {k: (repr(args_before[k]), repr(after.get(k))) for k in args_before if after.get(k) != args_before[k]}
+                sh_ref[0].check('scored-frame=input-rows', not changed, 'mixed_rank_graph-modified-the-args-object', lambda: {'changed': changed})
         captured.append((snap, list(out.triplet_scores)))
         return out
     cr.mixed_rank_graph = hooked
@@ -132,7 +141,7 @@ def shard_frames(sh, part, parts):
     import pandas as pd
     cr = pipe.fresh_core_ranking()
     captured = []
-    install_hook(cr, captured)
+    install_hook(cr, captured, sh)
     rng, nprng = sh.rng('frames', part), sh.nprng('frames', part)
     reps = 5 if sh.tier == 'quick' else 60
     todo = [(h, mode, via, r) for h in HEURISTICS for mode in ('True', 'False') for via in ('mixed_rank_graph', 'compute_batch_ranking') for r in range(reps)]
